@@ -1,3 +1,36 @@
-import Anytree.Spec.Dict
+import Anytree.Props.C10
+/-!
+# C11 — JSON export and import round-trip every JSON-representable tree
+
+`JsonExporter`/`JsonImporter` are delegations; `dumps`/`loads` are parameters standing for CPython's
+`json` module, about which the single assumption `loads (dumps d) = some d` is made.
+-/
 namespace Anytree.Props.C11
+open Anytree Tree Dict Spec
+variable {V J : Type}
+
+/-- `export` is exactly `dumps` of what the dictionary exporter produces for that node and maxlevel;
+the JSON exporter's own `maxlevel`, when given, replaces the dictionary exporter's -/
+theorem json_export_eq (dumps : DData V → J) (attriter : Attrs V → Attrs V)
+    (childiter : List (Tree (Attrs V)) → List (Tree (Attrs V))) (dm jm : Option Int) (t : Tree (Attrs V)) :
+    jsonExport dumps attriter childiter dm jm t =
+      dumps (exportD attriter childiter (match jm with | some k => some k | none => dm) t) := by
+  cases jm <;> rfl
+
+/-- JSON round trip: `import_(export(t))` rebuilds `t` (clean attribute dictionaries, default
+options), assuming only that `loads` inverts `dumps` -/
+theorem json_round_trip (dumps : DData V → J) (loads : J → Option (DData V))
+    (hjson : ∀ d, loads (dumps d) = some d) (t : Tree (Attrs V)) (h : CleanT t) :
+    jsonImport loads .anyNode (jsonExport dumps id id none none t) = some t := by
+  simp only [jsonImport, jsonExport, hjson]
+  exact C10.import_export t h
+
+/-- with a `maxlevel` the re-imported tree is the exported view -/
+theorem json_round_trip_view (dumps : DData V → J) (loads : J → Option (DData V))
+    (hjson : ∀ d, loads (dumps d) = some d) (attriter : Attrs V → Attrs V)
+    (childiter : List (Tree (Attrs V)) → List (Tree (Attrs V))) (dm jm : Option Int) (t : Tree (Attrs V)) :
+    jsonImport loads .anyNode (jsonExport dumps attriter childiter dm jm t) =
+      importT .anyNode (exportD attriter childiter (match jm with | some k => some k | none => dm) t) := by
+  cases jm <;> simp only [jsonImport, jsonExport, hjson]
+
 end Anytree.Props.C11
